@@ -1652,7 +1652,11 @@ class Interp(object):
                         results.append((NONE, r))
                     else:
                         results.append((None, r))
-        results.append((self.opaque_result(fv, args, kwargs, p, node, callee), p))
+        res = self.opaque_result(fv, args, kwargs, p, node, callee)
+        d["result"] = res
+        if isinstance(res, tuple) and res and res[0] == "call":
+            d["site"] = res[4]
+        results.append((res, p))
         return results
 
     def opaque_result(self, fv, args, kwargs, p, node, callee):
@@ -1764,6 +1768,13 @@ class Interp(object):
                 return [(("dict", ()), p)]
             if n == "len" and len(args) == 1 and isinstance(self.deref(args[0], p), tuple) and self.deref(args[0], p)[0] in ("tuple", "list"):
                 return [(("const", len(self.deref(args[0], p)[1])), p)]
+            if n == "getattr" and len(args) == 2 and isinstance(args[1], tuple) and args[1][0] == "const" and isinstance(args[1][1], str):
+                # getattr(obj, "literal") is plain attribute access
+                vals = self.getattr_value(args[0], args[1][1], p, node)
+                if len(vals) == 1 and vals[0][0] != ("attr", args[0], args[1][1]):
+                    return vals
+                if isinstance(args[0], tuple) and args[0][0] == "class":
+                    return [(("attr", args[0], args[1][1]), p)]
             if n in ("isinstance", "callable", "hasattr", "getattr", "len", "min", "max", "repr", "str", "dir", "enumerate", "zip", "iter", "pow", "abs", "round", "divmod", "int", "float", "complex", "bool", "tuple", "range", "id", "type", "sorted", "any", "all", "setattr"):
                 if n in ("callable",) and len(args) == 1:
                     k = args[0]
